@@ -107,8 +107,11 @@ class Machine(object):
                 k = "next" if rr < 0.6 else rng.randrange(nsent[frm])
                 fault = rng.choice(NET_FAULTS) if frm == si else "splice"
                 ops.append(["deliver", si, frm, k, fault, rng.randrange(1 << 16)])
-            elif r < 0.94:
+            elif r < 0.92:
                 ops.append(["wrong_dir", si, rng.choice(["seal_on_receiver", "unseal_on_sender"])])
+            elif r < 0.94:
+                # a call refused for its arguments (not a message): no sequence number may be consumed by it
+                ops.append(["bad_arg", si, rng.choice(["seal", "seal", "unseal"]), rng.randrange(5)])
             elif r < 0.97:
                 ops.append(["jump", si, rng.choice([0, 1, 2])])
             else:
@@ -406,6 +409,20 @@ class Machine(object):
                 except Exception as e:
                     ctx.violate("hpke/wrong-direction/exception:%s" % type(e).__name__, "%s raised %r" % (op[2], e),
                                 observed=repr(e), expected="ValueError")
+            elif kind == "bad_arg":
+                obj = st["snd"] if op[2] == "seal" else st["rcv"]
+                if obj is None or st["snd_dead"]:
+                    continue
+                meth = getattr(obj, op[2])
+                body = b"x" * 40
+                try:
+                    [lambda: meth(u"text"), lambda: meth(None), lambda: meth(body, u"aad \u00e9"), lambda: meth(5), lambda: meth(body, 7)][op[3]]()
+                except (TypeError, ValueError, AttributeError):
+                    ctx.fault("call.bad_argument")
+                else:
+                    # accepted (e.g. unseal of 40 arbitrary bytes cannot be, seal(None)?): the history left the model
+                    ctx.probe("bad_argument_call_accepted")
+                    return
             elif kind == "jump":
                 snd = st["snd"]
                 if not (isinstance(getattr(snd, "_sequence", None), int) and getattr(snd, "_max_sequence", None) == (1 << 96) - 1):
